@@ -73,6 +73,11 @@ func tokenFor(env *stateEnv, sel string) types.ZenonTokenStandard {
 			return env.BridgeTok
 		}
 		return unknownZ
+	case "bridge-owned-full-fee":
+		if env.BridgeFull != types.ZeroTokenStandard {
+			return env.BridgeFull
+		}
+		return unknownZ
 	}
 	panic("token selector " + sel)
 }
